@@ -22,10 +22,17 @@
      c_trace c'            one entry per decided request, in the order of the decisions
      log_of k (c_log c')   the lock regions of the limiter of key k (requests: SInc, the
                            Counter() of a collection: SPeek) with the clock readings taken inside
-     erase ts sch          the schedule without the steps of the collections *)
+     erase ts sch          the schedule without the steps of the collections
+   Clock hypothesis of the registry theorems (audit 2): the readings of the lock regions of
+   the key's OWN limiter, map sev_now (log_of k (c_log c')), are non-decreasing; nothing is
+   asked of the labels of other limiters.  A globally non-decreasing schedule satisfies it
+   for every key (C09_registry_monotone_schedule_is_key_monotone).
+   Suite "overlap" (Overlap.v): every state its interpreter reaches is a state some schedule
+   of [run Head] reaches (C09_overlap_suite_states_are_reachable). *)
 From Coq Require Import List ZArith Bool Lia.
 From Verif Require Import C09.Model C09.Spec C09.Proofs C09.ProofsAudit C09.LimitRange C09.Registry C09.RegistryProofs.
 From Verif Require Import C09.Variants C09.VariantsProofs.
+From Verif Require C09.Overlap.
 Import ListNotations.
 Open Scope Z_scope.
 
@@ -358,10 +365,11 @@ Print Assumptions C09_limit_integer_part.
 (* F-C09, the formula of the unpatched tree int64(math.Ceil(float64(total)*ratio)):
    allowed 100 at 7 % gives 8, the exact rounded-up share is 7; the patched
    formula gives 7. *)
-Example C09_unfixed_limit_refuted :
+Theorem C09_unfixed_limit_refuted :
   let r7 := ratio_of_pct_bits (pct_bits_of_hundredths 700) in
   limit_unfixed 100 r7 = Some 8 /\ limit_exact 100 700 = 7 /\ limit_code 100 r7 = 7.
 Proof. vm_compute. repeat split. Qed.
+Print Assumptions C09_unfixed_limit_refuted.
 
 (* ------------------------------------------------------------------ *)
 (** Plugin level (StrategyBasedThrottlingPlugin.OnRequest). *)
@@ -496,34 +504,68 @@ Print Assumptions C09_plugin_group_share.
 
 (* non-vacuity: remedy "r" (allowed 100, window 1 s, status unset) with X-G: "a" listed at 7 %;
    nine requests of group a and one of an unlisted group in one window, a collection in
-   between: seven NoOp, then 429; the hypotheses of C09_plugin_group_share hold *)
+   between: seven NoOp, then 429.  ALL hypotheses of C09_plugin_group_share hold on it --
+   the per-key clock hypothesis included: the instants that concern the key are
+   [5;5;5;5;5;5;5;5;5;5] (a collection concerns every key; the request of the other group at
+   instant 7 does not concern it) -- and the last conjunct is the theorem applied to it.
+   (Audit 2, item 3: the earlier version of this history had the collection at instant 6
+   followed by requests at 5, which violates that hypothesis, and did not state it.) *)
+Definition pgs_g : gqa :=
+  {| gHeader := [88; 45; 71];
+     gGroups := [{| aVal := [97]; aPct := pct_bits_of_hundredths 700 |}];
+     gDefault := s_block; gDefPct := 0 |}.
+Definition pgs_r : remedy :=
+  {| rName := [114]; rAllowed := 100; rWsec := 1; rStatus := 0; rSpillOn := false;
+     rRenew := 0; rGqa := Some pgs_g |}.
+Definition pgs_a : pev := PReq 5 pgs_r [([88; 45; 71], [97])].
+Definition pgs_h : list pev :=
+  [pgs_a; pgs_a; pgs_a; PCol 5; pgs_a; pgs_a; PReq 7 pgs_r [([88; 45; 71], [98])];
+   pgs_a; pgs_a; pgs_a; pgs_a].
+Definition pgs_k : key :=
+  {| kLimiter := [114]; kGrouped := true; kGroup := lower [88; 45; 71] ++ [58] ++ trim [97] |}.
+
 Example C09_example_plugin_history :
-  let g := {| gHeader := [88; 45; 71];
-              gGroups := [{| aVal := [97]; aPct := pct_bits_of_hundredths 700 |}];
-              gDefault := s_block; gDefPct := 0 |} in
-  let r := {| rName := [114]; rAllowed := 100; rWsec := 1; rStatus := 0; rSpillOn := false;
-              rRenew := 0; rGqa := Some g |} in
-  let a := PReq 5 r [([88; 45; 71], [97])] in
-  let h := [a; a; a; PCol 6; a; a; PReq 7 r [([88; 45; 71], [98])]; a; a; a; a] in
-  let k := {| kLimiter := [114]; kGrouped := true; kGroup := lower [88; 45; 71] ++ [58] ++ trim [97] |} in
+  let tr := pentries_of pgs_k (run_plugin_hist [] pgs_h) in
   Forall (fun e => match e with
-                   | PReq _ r' hs => rName r' = rName r ->
-                                     r' = r /\ (trim (header hs (gHeader g)) = trim [97] ->
-                                                header hs (gHeader g) = [97])
+                   | PReq _ r' hs => rName r' = rName pgs_r ->
+                                     r' = pgs_r /\ (trim (header hs (gHeader pgs_g)) = trim [97] ->
+                                                    header hs (gHeader pgs_g) = [97])
                    | PCol _ => True
-                   end) h /\
+                   end) pgs_h /\
+  mono (map pev_now (filter (concerns pgs_k) pgs_h)) /\
+  map pev_now (filter (concerns pgs_k) pgs_h) = [5; 5; 5; 5; 5; 5; 5; 5; 5; 5] /\
   limit_exact 100 700 = 7 /\
-  map (fun e => (p_now e, code_of_pout (p_out e))) (pentries_of k (run_plugin_hist [] h)) =
+  map (fun e => (p_now e, code_of_pout (p_out e))) tr =
     [(5, 0); (5, 0); (5, 0); (5, 0); (5, 0); (5, 0); (5, 0); (5, 429); (5, 429)] /\
-  map (fun e => code_of_pout (p_out e)) (run_plugin_hist [] h) = [0; 0; 0; 0; 0; 429; 0; 0; 429; 429].
+  map (fun e => code_of_pout (p_out e)) (run_plugin_hist [] pgs_h) = [0; 0; 0; 0; 0; 429; 0; 0; 429; 429] /\
+  (* C09_plugin_group_share applied to this history *)
+  (((forall j, pcount (in_left 1000000000 j) tr <= 7) \/
+    (forall j, pcount (in_right 1000000000 j) tr <= 7)) /\
+   Forall (fun e => p_out e = PNoOp \/ p_out e = PEarly (p_status e)) tr).
 Proof.
-  cbn zeta. split.
-  - repeat (apply Forall_cons;
+  cbn zeta.
+  assert (HF : Forall (fun e => match e with
+                   | PReq _ r' hs => rName r' = rName pgs_r ->
+                                     r' = pgs_r /\ (trim (header hs (gHeader pgs_g)) = trim [97] ->
+                                                    header hs (gHeader pgs_g) = [97])
+                   | PCol _ => True
+                   end) pgs_h).
+  { repeat (apply Forall_cons;
             [first [exact I
                    | intros _; split; [reflexivity|]; vm_compute; intros E;
                      first [reflexivity | discriminate E]]|]).
-    apply Forall_nil.
-  - split; [reflexivity|]. split; vm_compute; reflexivity.
+    apply Forall_nil. }
+  assert (HM : mono (map pev_now (filter (concerns pgs_k) pgs_h))).
+  { vm_compute. repeat split; discriminate. }
+  split; [exact HF|]. split; [exact HM|].
+  split; [vm_compute; reflexivity|]. split; [reflexivity|].
+  split; [vm_compute; reflexivity|]. split; [vm_compute; reflexivity|].
+  refine (C09_plugin_group_share pgs_h pgs_r pgs_g [97] 700 eq_refl _ _ _ _ eq_refl _ HF HM).
+  - vm_compute. reflexivity.
+  - lia.
+  - unfold max_i64. cbn. lia.
+  - cbn. lia.
+  - discriminate.
 Qed.
 
 (* ------------------------------------------------------------------ *)
@@ -576,20 +618,48 @@ Theorem C09_registry_refines : forall ts sch c' k,
 Proof. exact head_refines. Qed.
 Print Assumptions C09_registry_refines.
 
+(* the clock hypothesis of the theorems below is per key; a schedule whose labels carry
+   non-decreasing readings (the form the hypothesis had before audit 2) satisfies it for every
+   key, with the same lower bound *)
+Theorem C09_registry_monotone_schedule_is_key_monotone : forall v ts sch c' k,
+  run v (init_config ts) sch = Some c' ->
+  (mono (map l_now sch) -> mono (map sev_now (log_of k (c_log c')))) /\
+  (forall lo, mono_from lo (map l_now sch) -> mono_from lo (map sev_now (log_of k (c_log c')))).
+Proof.
+  intros v ts sch c' k HR. split.
+  - exact (run_key_mono v ts sch c' k HR).
+  - intros lo. exact (run_key_mono_from v ts sch c' k lo HR).
+Qed.
+Print Assumptions C09_registry_monotone_schedule_is_key_monotone.
+
 (* per (remedy, group) and aligned window at most the scaled allowance proceeds, for every
-   interleaving; requests of the key carry the same window data, spill-over off *)
+   interleaving; requests of the key carry the same window data, spill-over off; the readings
+   of the key's own lock regions are non-decreasing.  The disjunction of closures is kept in
+   this variant-indexed form because its refutation for SnapshotPrune then refutes BOTH
+   closures; for HEAD the right-closed half is stated on its own below
+   (C09_registry_bound_right_closed). *)
 Definition registry_bound (v : variant) : Prop :=
   forall ts sch c' k wd,
     forallb initial ts = true -> run v (init_config ts) sch = Some c' ->
-    mono (map l_now sch) -> key_valid k = true ->
+    mono (map sev_now (log_of k (c_log c'))) -> key_valid k = true ->
     0 < wW wd -> wSpillOn wd = false -> requests_use k wd ts ->
     let L := scaled_quota (wAllowed wd) (wParts wd) in
     (forall j, count (in_left (wW wd) j) (entries_of k (c_trace c')) <= L) \/
     (forall j, count (in_right (wW wd) j) (entries_of k (c_trace c')) <= L).
 
 Theorem C09_registry_bound : registry_bound Head.
-Proof. intros ts sch c' k wd Hi HR HM Hk HW Hs HU L. right. eapply head_grid_bound_const; eassumption. Qed.
+Proof. intros ts sch c' k wd Hi HR HM Hk HW Hs HU L. right. eapply head_grid_bound_const_key; eassumption. Qed.
 Print Assumptions C09_registry_bound.
+
+(* what the code satisfies, without the disjunction: right-closed grid windows (jW, (j+1)W] *)
+Theorem C09_registry_bound_right_closed : forall ts sch c' k wd,
+  forallb initial ts = true -> run Head (init_config ts) sch = Some c' ->
+  mono (map sev_now (log_of k (c_log c'))) -> key_valid k = true ->
+  0 < wW wd -> wSpillOn wd = false -> requests_use k wd ts ->
+  forall j, count (in_right (wW wd) j) (entries_of k (c_trace c'))
+            <= scaled_quota (wAllowed wd) (wParts wd).
+Proof. exact head_grid_bound_const_key. Qed.
+Print Assumptions C09_registry_bound_right_closed.
 
 (* "Counters() works on a snapshot of the map and afterwards drops the limiters it found
    idle": a request that increments a limiter between the look and the removal is forgotten,
@@ -597,7 +667,9 @@ Print Assumptions C09_registry_bound.
 Theorem C09_registry_bound_snapshot_prune_refuted : ~ registry_bound SnapshotPrune.
 Proof.
   intros H. destruct snapshot_prune_witness as (c' & HR & _ & HcR & HcL).
-  destruct (H wit_threads wit_schedule c' wit_key wit_wd eq_refl HR) as [HB|HB];
+  assert (HM : mono (map sev_now (log_of wit_key (c_log c')))).
+  { apply (run_key_mono SnapshotPrune wit_threads wit_schedule c' wit_key HR). cbn. lia. }
+  destruct (H wit_threads wit_schedule c' wit_key wit_wd eq_refl HR HM) as [HB|HB];
     try reflexivity; try (cbn; lia).
   - repeat constructor.
   - specialize (HB 1). change (wW wit_wd) with 10 in HB. rewrite HcL in HB. vm_compute in HB. apply HB. reflexivity.
@@ -608,22 +680,22 @@ Print Assumptions C09_registry_bound_snapshot_prune_refuted.
 (* window data other than the size may vary from request to request *)
 Theorem C09_registry_grid_bound : forall ts sch c' k W,
   forallb initial ts = true -> run Head (init_config ts) sch = Some c' ->
-  mono (map l_now sch) -> key_valid k = true -> 0 < W ->
+  mono (map sev_now (log_of k (c_log c'))) -> key_valid k = true -> 0 < W ->
   const_window W (log_of k (c_log c')) ->
   bounded_left W 0 (entries_of k (c_trace c')) \/ bounded_right W 0 (entries_of k (c_trace c')).
-Proof. intros. right. eapply head_grid_bound; eassumption. Qed.
+Proof. intros. right. eapply head_grid_bound_key; eassumption. Qed.
 Print Assumptions C09_registry_grid_bound.
 
 (* a rejection means the allowance of the closed grid cell around it is used up -- also when
    requests and collections overlap *)
 Theorem C09_registry_rejected_only_when_used_up : forall ts sch c' k W pre e post,
   forallb initial ts = true -> run Head (init_config ts) sch = Some c' ->
-  mono_from 0 (map l_now sch) -> key_valid k = true -> 0 < W ->
+  mono_from 0 (map sev_now (log_of k (c_log c'))) -> key_valid k = true -> 0 < W ->
   const_window W (log_of k (c_log c')) ->
   entries_of k (c_trace c') = pre ++ e :: post ->
   s_verdict e = Block -> 0 < s_now e ->
   exists j, in_closed W j (s_now e) = true /\ s_lim e <= count (in_closed W j) pre.
-Proof. intros. eapply head_rejected_used_up; eassumption. Qed.
+Proof. intros. eapply head_rejected_used_up_key; eassumption. Qed.
 Print Assumptions C09_registry_rejected_only_when_used_up.
 
 (* groups are independent: what happens to a key depends on the lock regions of its own
@@ -676,13 +748,13 @@ Print Assumptions C09_metrics_read_only_full_refuted.
    collections leaves every verdict and limit of the key unchanged *)
 Theorem C09_metrics_read_only_holds_outside_grid_instants : forall ts sch c' k wd,
   forallb initial ts = true -> run Head (init_config ts) sch = Some c' ->
-  mono_from 0 (map l_now sch) -> key_valid k = true ->
+  mono_from 0 (map sev_now (log_of k (c_log c'))) -> key_valid k = true ->
   0 < wW wd -> wSpillOn wd = false -> requests_use k wd ts ->
   Forall (fun e => sev_now e mod wW wd <> 0) (log_of k (c_log c')) ->
   exists c'', run Head (init_config ts) (erase ts sch) = Some c'' /\
               c_map c'' = c_map c' /\
               entries_of k (c_trace c'') = entries_of k (c_trace c').
-Proof. exact head_metrics_neutral. Qed.
+Proof. exact head_metrics_neutral_key. Qed.
 Print Assumptions C09_metrics_read_only_holds_outside_grid_instants.
 
 (* lock order plugin.mutex -> RateLimitState.mutex -> limiter mutex: from every state an
@@ -753,12 +825,106 @@ Example C09_registry_example :
   requests_use wit_key wit_wd wit_threads /\
   run Head (init_config wit_threads) wit_schedule = None /\
   exists c', run Head (init_config wit_threads) wit_schedule_head = Some c' /\
+             mono_from 0 (map sev_now (log_of wit_key (c_log c'))) /\
              map (fun e => (s_now e, s_verdict e)) (entries_of wit_key (c_trace c')) =
                [(1, Proceed); (11, Proceed); (12, Block)].
 Proof.
   split; [reflexivity|]. split; [cbn; lia|]. split; [repeat constructor|].
-  split; [exact head_blocks_witness | exact head_witness].
+  split; [exact head_blocks_witness|].
+  destruct head_witness as (c' & HR & HE). exists c'. split; [exact HR|]. split; [|exact HE].
+  apply (run_key_mono_from Head wit_threads wit_schedule_head c' wit_key 0 HR). cbn. lia.
 Qed.
+
+(* non-vacuity of the PER-KEY clock hypothesis where the schedule-level one fails: the request
+   of key A takes its limiter and reads 10, is held there (as suite overlap holds a goroutine
+   in its clock reading) while the request of key B runs its region at 20, and A's region is
+   listed afterwards with the reading it took: the labels read [10; 20; 20; 10], not
+   monotone; each key's own readings are.  C09_registry_bound_right_closed applies. *)
+Definition stale_key_b : key := {| kLimiter := [66]; kGrouped := false; kGroup := [] |}.
+Definition stale_threads : list thread :=
+  [TReq wit_key wit_wd RLook; TReq stale_key_b wit_wd RLook].
+Definition stale_schedule : list label := [lab 0 10; lab 1 20; lab 1 20; lab 0 10].
+
+Example C09_registry_stale_reading_example :
+  ~ mono (map l_now stale_schedule) /\
+  exists c', run Head (init_config stale_threads) stale_schedule = Some c' /\
+             map sev_now (log_of wit_key (c_log c')) = [10] /\
+             map sev_now (log_of stale_key_b (c_log c')) = [20] /\
+             map (fun e => (s_now e, s_verdict e)) (entries_of wit_key (c_trace c')) = [(10, Proceed)] /\
+             forall j, count (in_right 10 j) (entries_of wit_key (c_trace c')) <= 1.
+Proof.
+  split; [cbn; lia|].
+  eexists. split; [vm_compute; reflexivity|].
+  split; [vm_compute; reflexivity|]. split; [vm_compute; reflexivity|].
+  split; [vm_compute; reflexivity|].
+  refine (C09_registry_bound_right_closed stale_threads stale_schedule _ wit_key wit_wd
+            eq_refl _ _ eq_refl _ eq_refl _).
+  - vm_compute. reflexivity.
+  - vm_compute. exact I.
+  - cbn. lia.
+  - repeat constructor; discriminate.
+Qed.
+
+(* non-vacuity of C09_metrics_read_only_holds_outside_grid_instants: on the run of
+   C09_registry_example (three requests, one collection, a rejection) the lock regions of the
+   key read 1, 11, 11 (the Counter() region), 12 -- no grid instant of window 10 -- and the
+   theorem applies: without the collection the key sees the same verdicts *)
+Example C09_metrics_read_only_example :
+  exists c', run Head (init_config wit_threads) wit_schedule_head = Some c' /\
+             map (fun e => sev_now e mod 10) (log_of wit_key (c_log c')) = [1; 1; 1; 2] /\
+             exists c'', run Head (init_config wit_threads) (erase wit_threads wit_schedule_head) = Some c'' /\
+                         c_map c'' = c_map c' /\
+                         entries_of wit_key (c_trace c'') = entries_of wit_key (c_trace c').
+Proof.
+  eexists. split; [vm_compute; reflexivity|]. split; [vm_compute; reflexivity|].
+  refine (C09_metrics_read_only_holds_outside_grid_instants wit_threads wit_schedule_head _
+            wit_key wit_wd eq_refl _ _ eq_refl _ eq_refl _ _).
+  - vm_compute. reflexivity.
+  - vm_compute. repeat split; discriminate.
+  - cbn. lia.
+  - repeat constructor.
+  - vm_compute. repeat (apply Forall_cons; [discriminate|]). apply Forall_nil.
+Qed.
+
+(* ------------------------------------------------------------------ *)
+(** Suite "overlap" and the registry machine.  The suite's entry point Overlap.run_overlap
+    interprets the forced schedule of a case by Overlap.run_ops; every change it makes to the
+    machine configuration is a [Registry.step Head] (Overlap.machine_step), so every state
+    it reaches -- in particular the final one, whose verdicts and counters are compared with
+    the implementation's -- is reached by some schedule of [run Head] from the initial
+    threads of the case: the states the suite compares are states the C09_registry_*
+    theorems speak about.  (The clock hypothesis of those theorems is per key; the
+    interpreter executes a parked region with the reading taken when it was parked, see
+    C09_registry_stale_reading_example.) *)
+Theorem C09_overlap_suite_states_are_reachable : forall ops o0 o sts,
+  Overlap.run_ops o0 ops = Some (o, sts) ->
+  exists sch, run Head (Overlap.o_cfg o0) sch = Some (Overlap.o_cfg o).
+Proof. exact Overlap.run_ops_reachable. Qed.
+Print Assumptions C09_overlap_suite_states_are_reachable.
+
+(* ... for a whole case: if the suite accepts it (run_overlap = None, no mismatch), the
+   observed verdicts and counters are those of a configuration that a schedule of the Head
+   machine reaches from the case's threads, all of them initial *)
+Theorem C09_overlap_accepted_case_is_a_run : forall k,
+  Overlap.run_overlap k = None ->
+  exists ts sch c',
+    Overlap.overlap_threads k = Some ts /\ forallb initial ts = true /\
+    run Head (init_config ts) sch = Some c' /\
+    zlist_eqb (Overlap.verdicts_of c' (Overlap.overlap_kt k) (Overlap.ov_reqs k) 0)
+              (Overlap.ov_verdicts k) = true /\
+    Overlap.all2 Overlap.counters_eqb
+      (Overlap.counters_of c' (length (Overlap.ov_cols k)) (length (Overlap.ov_reqs k)))
+      (Overlap.ov_counters k) = true.
+Proof. exact Overlap.run_overlap_accepted_reachable. Qed.
+Print Assumptions C09_overlap_accepted_case_is_a_run.
+
+(* non-vacuity: two ungrouped remedies r1, r2 (1 request per second).  Request 0 (r1) is held
+   in its clock reading at the base instant; the clock moves on by 0.5 s; request 1 (r2) runs;
+   request 0 is released (its region runs with the reading it took); request 2 (r1) is
+   rejected with 429; a collection reports 1 for both.  The case is accepted. *)
+Example C09_overlap_example :
+  Overlap.run_overlap Overlap.overlap_example = None.
+Proof. vm_compute. reflexivity. Qed.
 
 (* ------------------------------------------------------------------ *)
 (** Two more dimensions (Variants.v), each with a variant switch.
